@@ -429,6 +429,12 @@ bool TypeChecker::typesAreCompatible(
             return false;
         return typesAreCompatible(resolvedTy, ty2, treatVoidAsAny, ignoreQualifier);
     }
+    if (ty2->kind() == TypeKind::TypedefName) {
+        auto resolvedTy = ty2->asTypedefNameType()->resolvedSynonymizedType();
+        if (!resolvedTy)
+            return false;
+        return typesAreCompatible(ty1, resolvedTy, treatVoidAsAny, ignoreQualifier);
+    }
     if (ignoreQualifier
             && ty2->kind() == TypeKind::Qualified
             && ty1->kind() != TypeKind::Qualified) {
